@@ -399,7 +399,7 @@ class Gen:
             finite_f32_bytes(rng) + finite_f32_bytes(rng) + finite_f32_bytes(rng)
         return self.stable(self.im.tmpls.TA_TEMPLATE, raw, "TextureAnim")
 
-    def values(self, flags: int, pcode: int, minimal=False):
+    def values(self, flags: int, pcode: int, minimal=False, force=None):
         rng, im = self.rng, self.im
         UUID, Vector3, Quaternion = im.dtypes.UUID, im.dtypes.Vector3, im.dtypes.Quaternion
         CF = im.tmpls.CompressedFlags
@@ -463,11 +463,14 @@ class Gen:
             if ps is None:
                 return None
             v["PSBlockNew"] = ps
+        for k, x in (force or {}).items():
+            if k in v:          # only fields/sections that are present
+                v[k] = x
         return v
 
-    def payload(self, flags, pcode, minimal=False):
+    def payload(self, flags, pcode, minimal=False, force=None):
         for _ in range(4):
-            v = self.values(flags, pcode, minimal)
+            v = self.values(flags, pcode, minimal, force)
             if v is None:
                 continue
             ok, p = self.im.encode(v)
@@ -787,6 +790,7 @@ def gen_cases(ctx, im: Impl, gen: Gen):
     for flags in (1, 4, 512, 256, 1024, 4 | 512 | 256 | 1, 2047 & ~8):
         yield "wire-empty", wire_payload(flags), True
     yield "wire-nv", wire_payload(256, sections={"nv": b"AttachItemID STRING RW SV abc"}), True
+    yield from boundary_cases(ctx, im, gen)
     # every flag combination x object kind with generated contents
     per = ctx.pick(1, 4)
     quick_pcodes = ctx.pick(3, 9)
@@ -808,6 +812,88 @@ def gen_cases(ctx, im: Impl, gen: Gen):
     for p in [wire_payload(2047 & ~8, sections={"text": b"hi", "media": b"u", "nv": b"a STRING R S v"})] + domain[-3:]:
         for n in range(len(p)):
             yield "mut-prefix", p[:n], False
+
+
+STR_LENGTHS = (0, 1, 2, 127, 128, 254, 255, 256, 257, 300, 1000, 4096)
+INT_FIELDS = {"ID": "I", "PCode": "B", "State": "B", "CRC": "I", "Material": "B", "ClickAction": "B", "ParentID": "I",
+              "TreeSpecies": "B", "SoundFlags": "B", "PathCurve": "B", "ProfileCurve": "B", "PathBegin": "H", "PathEnd": "H",
+              "PathScaleX": "B", "PathScaleY": "B", "PathShearX": "B", "PathShearY": "B", "PathTwist": "b",
+              "PathTwistBegin": "b", "PathRadiusOffset": "b", "PathTaperX": "b", "PathTaperY": "b", "PathRevolutions": "B",
+              "PathSkew": "b", "ProfileBegin": "H", "ProfileEnd": "H", "ProfileHollow": "H"}
+INT_RANGE = {"B": (0, 255), "H": (0, 65535), "I": (0, 0xFFFFFFFF), "b": (-128, 127)}
+
+
+def utf8_of_len(n: int, multibyte: bool) -> str:
+    """a string without NUL whose UTF-8 encoding is exactly n bytes"""
+    if not multibyte or n < 2:
+        return "a" * n
+    s = "\u00e9" * ((n - n % 2 - (3 if n >= 5 and n % 2 else 0)) // 2)      # 2-byte characters
+    rest = n - len(s.encode())
+    if rest >= 3:
+        s += "\u2603"                                                          # one 3-byte character
+        rest -= 3
+    s += "z" * rest
+    assert len(s.encode()) == n, (n, len(s.encode()))
+    return s
+
+
+def boundary_cases(ctx, im: Impl, gen: "Gen"):
+    """section contents at the size boundaries of every framing, and every fixed-width integer at its ends;
+    all serialised through the real TEMPLATE (template domain) unless marked wire"""
+    T, MU, SP, NV, PAR, TREE, SND = 4, 512, 1, 256, 32, 2, 16
+    # C strings: the declarative CStr has no length limit, so neither may the fast reader
+    for n in STR_LENGTHS:
+        for mb in (False, True):
+            t = utf8_of_len(n, mb)
+            for flags, force in ((T, {"Text": t}), (MU, {"MediaURL": t}), (T | MU, {"Text": t, "MediaURL": t}),
+                                 (2047 & ~8, {"Text": t, "MediaURL": t[::-1] if not mb else t})):
+                p = gen.payload(flags, 9, force=force)
+                if p is not None:
+                    yield "bound-cstr", p, True
+        # the same lengths straight on the wire (independent encoder)
+        yield "bound-cstr-wire", wire_payload(T | MU, sections={"text": b"t" * n, "media": b"m" * n}), True
+    # length-prefixed byte arrays
+    for n in (0, 1, 254, 255, 256, 257, 65535, 65536, 70000):
+        p = gen.payload(SP | PAR, 9, force={"ScratchPad": bytes((i * 7 + 1) & 0xFF for i in range(n))})
+        if p is not None:
+            yield "bound-scratchpad", p, True
+    # name-value strings (NUL terminated window, "\n" separated entries)
+    nv = im.namevalue
+    for n in (1, 200, 254, 255, 256, 257, 1000, 65535, 65536):
+        coll = nv.NameValueCollection([nv.NameValue(name="AttachItemID", type="STRING", rw="RW", sendto="SV", value="v" * n)])
+        p = gen.payload(NV, 9, force={"NameValue": coll})
+        if p is not None:
+            yield "bound-namevalue", p, True
+    coll = nv.NameValueCollection([nv.NameValue(name="n%d" % i, type="U32", rw="R", sendto="S", value=str(i)) for i in range(300)])
+    p = gen.payload(NV | T, 47, force={"NameValue": coll, "Text": "x" * 255})
+    if p is not None:
+        yield "bound-namevalue", p, True
+    # extra params: a U32-prefixed window of 256 / 4336 bytes (render material, 15 / 255 entries), and all 8 kinds at once
+    for cnt in (0, 14, 15, 16, 255):
+        body = bytes([cnt]) + b"".join(bytes([i % 45]) + bytes([(i * 3 + j) & 0xFF for j in range(16)]) for i in range(cnt))
+        raw = bytes([1]) + struct.pack("<HI", 0x80, len(body)) + body
+        v = gen.stable(im.tmpls.EXTRA_PARAM_COLLECTION, raw, "ExtraParams boundary")
+        if v is not None:
+            p = gen.payload(PAR, 9, force={"ExtraParams": v})
+            if p is not None:
+                yield "bound-extraparams", p, True
+    # texture animation is a fixed 16-byte record inside a U32 window: other window sizes must be rejected by both
+    for n in (0, 15, 17, 255, 256):
+        yield "bound-textureanim-wire", wire_payload(64, sections={"ta": bytes(n)}), False
+    # every fixed-width integer at both ends (all together, and one at a time against random others)
+    allflags = PAR | TREE | SND
+    for pc in (0, 9, 47, 255):
+        for end in (0, 1):
+            force = {k: INT_RANGE[f][end] for k, f in INT_FIELDS.items() if k != "PCode"}
+            p = gen.payload(allflags, pc, force=force)
+            if p is not None:
+                yield "bound-ints", p, True
+    for k, f in INT_FIELDS.items():
+        for end in (0, 1):
+            x = INT_RANGE[f][end]
+            p = gen.payload(allflags, x if k == "PCode" else 9, force={k: x})
+            if p is not None:
+                yield "bound-ints", p, True
 
 
 def vocache_check(ctx, im: Impl, payloads):
@@ -856,7 +942,9 @@ def correspond(ctx):
     res = CorrResult(
         suite="fast decoder vs template vs extracted model",
         rule="corpus first; every one of the 2048 section-flag combinations x 9 object kinds (6 named PCodes, 3 without a name) "
-             "with minimal contents (exhaustive); hand-made wire-level payloads with empty sections; every flag combination x "
+             "with minimal contents (exhaustive); hand-made wire-level payloads with empty sections; size boundaries of every framing "
+             "(Text/MediaURL of 0,1,2,127,128,254,255,256,257,300,1000,4096 bytes ASCII and multibyte; ScratchPad, NameValue, "
+             "ExtraParams windows around 255/256/65535/65536) and every fixed-width integer field at its min and max; every flag combination x "
              "%d object kinds x %d generated section contents serialised through the real TEMPLATE; seeded mutations (truncate, "
              "flag-bit flip, append, delete, byte edits) and every prefix of rich payloads.  Each case: real fast read vs real "
              "template read field by field (== and NaN-safe canonical form), both through normalize_object_update_compressed_data, "
@@ -913,9 +1001,6 @@ def correspond(ctx):
     dom = [p for k, p, dm in cases if k == "domain"]
     step = max(1, len(dom) // ctx.pick(300, 3000))
     voc = vocache_check(ctx, im, dom[::step])
-    if not _GEN_INFO.get("read_sha1_matches_transcription", True):
-        ctx.notes.append("source of FastObjectUpdateCompressedDataDeserializer.read differs from the text fast_read was transcribed "
-                         "from (sha1 %s): the correspondence above is what ties the hand model to it" % _GEN_INFO.get("read_sha1"))
     return [res, voc]
 
 
@@ -925,16 +1010,27 @@ def correspond(ctx):
 _GEN_INFO = {}
 
 
+class TranscriptionOutOfDate(Exception):
+    pass
+
+
 def generate(ctx):
     info = c13_gen.generate(COQ)
     _GEN_INFO.clear()
     _GEN_INFO.update(info)
+    if not info["read_sha1_matches_transcription"]:
+        # fail closed: fast_read is a hand transcription of exactly the recorded text.  The generated files above are
+        # written all the same, so the correspondence still runs and can produce a concrete failing payload.
+        raise TranscriptionOutOfDate(
+            "the source of FastObjectUpdateCompressedDataDeserializer / SimpleStructReader (read_struct, read_bytes_null_term) "
+            "has changed: sha1 %s is not the text coq/theories/Compressed/Model.v:fast_read was transcribed from (%s). "
+            "Re-transcribe fast_read/read_term/read_struct and record the new hash in harness/translate/c13_gen.py."
+            % (info["read_sha1"], ", ".join(c13_gen.TRANSCRIBED_SOURCES_SHA1)))
     return [
         {"name": "C13_gen.current_template: %d fields (%d gated) walked from the live TEMPLATE" % (info["n_fields"], info["n_gated"]),
          "detail": "opaque readers by identity: %s" % info["opaque"]},
         {"name": "C13_gen.current_cfg: struct formats, flag and PCode constants, reader.read spec kinds of the live fast decoder",
-         "detail": "read() source sha1 %s (%s the transcribed text)" % (
-             info["read_sha1"], "matches" if info["read_sha1_matches_transcription"] else "DIFFERS from")},
+         "detail": "sources of the fast decoder and SimpleStructReader: sha1 %s = the transcribed text" % info["read_sha1"]},
     ]
 
 
